@@ -1,5 +1,7 @@
 //! vh — verification harness for sentinel-rust. Drivers, projections and loggers only:
 //! every expected value comes from TLC.
+mod cfgcase;
+mod chain;
 mod gens;
 mod stat;
 mod util;
@@ -44,6 +46,35 @@ fn main() {
             let kmax = a.num("kmax", 6);
             let vals: Vec<u64> = (0..=a.num("jmax", 24)).collect();
             out.put_all(&stat::exec(&stat::grid(kmax, &vals)));
+            println!("events={}", out.lines);
+            out.finish();
+        }
+        "chain-replay" => {
+            let mut out = Out::create(a.get("out"));
+            for b in read_behaviours(a.get("in")) {
+                for c in &b {
+                    out.put(&chain::exec_case(c));
+                }
+            }
+            println!("events={}", out.lines);
+            out.finish();
+        }
+        "chain-drive" => {
+            let mut rng = rng(a.num("seed", 1));
+            let mut out = Out::create(a.get("out"));
+            for _ in 0..a.num("hist", 1000) {
+                out.put(&chain::exec_case(&chain::random_case(&mut rng)));
+            }
+            println!("events={}", out.lines);
+            out.finish();
+        }
+        "config-case" => {
+            println!("{}", cfgcase::run_case(&a));
+        }
+        "config-grid" => {
+            let mut out = Out::create(a.get("out"));
+            let parse = |s: &str| -> Vec<u64> { s.split(',').map(|x| x.parse().unwrap()).collect() };
+            cfgcase::grid(&parse(a.get_or("counts", "0,1,2,3,4,7,20")), &parse(a.get_or("intervals", "0,500,999,1000,1500,2000,10000")), &mut out);
             println!("events={}", out.lines);
             out.finish();
         }
@@ -94,6 +125,11 @@ fn main() {
                     "c05" => gens::c05(&mut rng, len),
                     "c06" => gens::c06(&mut rng, len),
                     "c09" => gens::c09(&mut rng, len),
+                    "c10" => gens::c10(&mut rng, len),
+                    "c11flow" => { let h = gens::c01(&mut rng, len); gens::with_reloads(&mut rng, h, "flow", "r1") }
+                    "c11hot" => { let h = gens::c06(&mut rng, len); gens::with_reloads(&mut rng, h, "hot", "r1") }
+                    "c11cb" => { let h = gens::c03(&mut rng, len); gens::with_reloads(&mut rng, h, "cb", "r1") }
+                    "c11thr" => { let h = gens::c07(&mut rng, len); let h = gens::with_reloads(&mut rng, h, "flow", "r1"); gens::with_reloads(&mut rng, h, "hot", "r1") }
                     "c07" => gens::c07(&mut rng, len),
                     p => panic!("no generator for {}", p),
                 };
